@@ -1,7 +1,121 @@
 (* Property C14 — evolution operators are closed over valid DNA and never corrupt their inputs.
-   Statements only; proofs in Proofs/Evo*.v. *)
-From PG Require Import Common.Tactics Model.Geno Model.Evo Model.EvoOps.
+   Statements only; proofs in Proofs/Evo*.v.
 
-Theorem C14_num_out_none : forall len, num_out NNone len = len.
-Proof. reflexivity. Qed.
-Print Assumptions C14_num_out_none.
+   Closure theorems have the form  "the operator returned children  ->  every child is valid (and aligned)":
+   an operator of the package that cannot produce a child raises (the model's [Err]); what is proved is that
+   nothing invalid is ever returned.  That the shipped operators do not raise on valid parents (beyond their
+   documented preconditions) is decided by the correspondence and the oracle, not by a theorem.
+   "Never modifies its inputs" and "deterministic function of the seed" hold definitionally of a pure function
+   and are therefore decided at the code level by the correspondence/oracle only. *)
+From PG Require Import Common.Tactics Model.Geno Model.Evo Model.EvoOps
+  Proofs.GenoConcrete Proofs.EvoBase Proofs.EvoSel Proofs.EvoComp Proofs.EvoMut Proofs.EvoSwap Proofs.EvoSeg Proofs.EvoPw Proofs.EvoRec
+  Proofs.EvoExamples.
+
+(* the contract assumed of random.Random is satisfiable *)
+Theorem C14_rng_contract_inhabited : rng_ok first_rng.
+Proof. exact first_rng_ok. Qed.
+Print Assumptions C14_rng_contract_inhabited.
+
+(* ---- selectors: members of the input, in the documented number (Random, Sample, Proportional, Top, Bottom, First, Last) *)
+Theorem C14_selector_members : forall R (G : rng R) sl pop r out r',
+  select R G sl pop r = Ok (out, r') -> incl out pop.
+Proof. exact select_members. Qed.
+Print Assumptions C14_selector_members.
+
+Theorem C14_selector_count : forall R (G : rng R), rng_ok G -> forall sl pop r out r',
+  weights_nonneg pop -> select R G sl pop r = Ok (out, r') -> length out = documented_count sl pop.
+Proof. exact select_count. Qed.
+Print Assumptions C14_selector_count.
+
+(* ---- composition: ALL operator programs (induction on the expression) ------------------------------------ *)
+Theorem C14_composition_closed : forall R (G : rng R) s,
+  (forall p, closed s (run_prim R G s p)) -> forall x, closed s (eval R G s x).
+Proof. exact comp_closed. Qed.
+Print Assumptions C14_composition_closed.
+
+(* ---- mutators ------------------------------------------------------------------------------------------------ *)
+Theorem C14_mutator_closed_uniform : forall R (G : rng R), rng_ok G -> forall wh q s d r d' r',
+  wf s = true -> valid s d = true -> mutate_uniform R G wh s d r = Ok (d', r') ->
+  valid s d' = true /\ exists b, bind q s (normalize d') = Some b /\ aligned q s b.
+Proof.
+  intros R G GOK wh q s d r d' r' Hwf Hv H.
+  assert (Hv' : valid s d' = true) by (eapply mutate_uniform_valid; eauto).
+  split; auto. destruct (bind_complete q s d' Hwf Hv') as (b & Hb & _ & Ha). eauto.
+Qed.
+Print Assumptions C14_mutator_closed_uniform.
+
+Theorem C14_mutator_closed_swap : forall R (G : rng R) wh q s d r d' r',
+  wf s = true -> valid s d = true -> mutate_swap R G wh s d r = Ok (d', r') ->
+  valid s d' = true /\ exists b, bind q s (normalize d') = Some b /\ aligned q s b.
+Proof.
+  intros R G wh q s d r d' r' Hwf Hv H.
+  assert (Hv' : valid s d' = true) by (eapply mutate_swap_valid; eauto).
+  split; auto. destruct (bind_complete q s d' Hwf Hv') as (b & Hb & _ & Ha). eauto.
+Qed.
+Print Assumptions C14_mutator_closed_swap.
+
+(* ---- recombinators ------------------------------------------------------------------------------------------- *)
+(* Uniform, Sample, Average, WeightedAverage under every where filter *)
+Theorem C14_recombinator_closed_pointwise : forall R (G : rng R) kd w ws q s ps r cs r',
+  wf s = true -> Forall (fun d => valid s d = true) ps -> pointwise R G kd w ws s ps r = Ok (cs, r') ->
+  Forall (fun c => valid s c = true /\ exists b, bind q s (normalize c) = Some b /\ aligned q s b) cs.
+Proof.
+  intros R G kd w ws q s ps r cs r' Hwf Hps H. eapply pointwise_valid in H; eauto.
+  eapply Forall_impl; [|exact H]. intros c Hc. split; auto.
+  destruct (bind_complete q s c Hwf Hc) as (b & Hb & _ & Ha). eauto.
+Qed.
+Print Assumptions C14_recombinator_closed_pointwise.
+
+(* KPoint and Segmented (any cutting points) *)
+Theorem C14_recombinator_closed_segmentwise : forall R (G : rng R) q s x y, wf s = true -> valid s x = true -> valid s y = true ->
+  let good := fun c => valid s c = true /\ exists b, bind q s (normalize c) = Some b /\ aligned q s b in
+  (forall k r, Forall good (fst (kpoint R G k s x y r))) /\ (forall cuts, Forall good (segment cuts s x y)).
+Proof.
+  intros R G q s x y Hwf Hx Hy good.
+  assert (K : forall l, Forall (fun c => valid s c = true) l -> Forall good l).
+  { intros l H. eapply Forall_impl; [|exact H]. intros c Hc. split; auto.
+    destruct (bind_complete q s c Hwf Hc) as (b & Hb & _ & Ha). eauto. }
+  split; intros; apply K; [apply kpoint_valid|apply segment_valid]; auto.
+Qed.
+Print Assumptions C14_recombinator_closed_segmentwise.
+
+(* PartiallyMapped, Order, Cycle.  The model validates each proposal as from_dict does (a proposal that is
+   not a permutation of the parent's values raises); that the three crossovers only ever propose
+   permutations -- so that they never raise -- is not proved (decided by the correspondence): partial. *)
+Theorem C14_recombinator_closed_permutation_partial : forall R (G : rng R) pk w q s x y r cs r',
+  wf s = true -> valid s x = true -> valid s y = true ->
+  permutation R G pk w s x y r = Ok (Some cs, r') ->
+  Forall (fun c => valid s c = true /\ exists b, bind q s (normalize c) = Some b /\ aligned q s b) cs.
+Proof.
+  intros R G pk w q s x y r cs r' Hwf Hx Hy H. eapply permutation_valid in H; eauto.
+  eapply Forall_impl; [|exact H]. intros c Hc. split; auto.
+  destruct (bind_complete q s c Hwf Hc) as (b & Hb & _ & Ha). eauto.
+Qed.
+Print Assumptions C14_recombinator_closed_permutation_partial.
+
+(* ---- every primitive, hence every expression over the shipped operators -------------------------------------- *)
+Theorem C14_primitives_closed : forall R (G : rng R), rng_ok G -> forall s, wf s = true ->
+  forall p, closed s (run_prim R G s p).
+Proof. exact prim_closed. Qed.
+Print Assumptions C14_primitives_closed.
+
+Theorem C14_expression_closed : forall R (G : rng R), rng_ok G -> forall s, wf s = true ->
+  forall x, closed s (eval R G s x).
+Proof. exact expr_closed. Qed.
+Print Assumptions C14_expression_closed.
+
+(* in exact arithmetic the mean of in-range values is in range: the clipping of Average only absorbs rounding *)
+Theorem C14_average_in_range_exact : forall (l : list Z) lo hi, l <> [] -> Forall (fun f => lo <= f <= hi)%Z l ->
+  (lo <= sumZ l / Z.of_nat (length l) <= hi)%Z.
+Proof. exact mean_in_range. Qed.
+Print Assumptions C14_average_in_range_exact.
+
+(* the hypotheses are satisfiable and the model runs on them *)
+Theorem C14_example : wf s0 = true /\ pop_ok s0 pop0 /\
+  exists out st, eval unit first_rng s0 x0 pop0 (tt, 2) = Ok (out, st) /\ length out = 6 /\ pop_ok s0 out.
+Proof.
+  split. exact ex_wf. split. exact ex_pop_ok.
+  destruct ex_eval as (out & st & He & Hl). exists out, st. split; auto. split; auto.
+  eapply (expr_closed unit first_rng first_rng_ok s0 ex_wf x0); eauto. exact ex_pop_ok.
+Qed.
+Print Assumptions C14_example.
